@@ -34,7 +34,7 @@ ASSUMPTIONS = [
     "Maxwell damper elongation q0 is left at its default 0",
 ]
 MIN_NONTRIVIAL = 100
-MIN_OUTCOMES = 2
+MIN_OUTCOMES = 1  # on a tree without defects every configuration is "stress_free"
 TOL = 1e-12
 
 LAWS = [("Spring", True), ("Spring", False), ("KelvinVoigt", True), ("KelvinVoigt", False), ("Maxwell", None)]
